@@ -65,6 +65,57 @@ func buildOrders(t rm.Table) []rs.BuildOpt {
 	return out
 }
 
+// wideDistinct (W2): one service /r with the 16 four-segment templates in which each position is
+// its literal (a, b, c, d) or a variable, one route each - all GET, or POST for the templates
+// with three or more literals (so that the most specific candidates are not eligible for a GET).
+func wideDistinct() tableGen {
+	lits := []string{"a", "b", "c", "d"}
+	mk := func(postAbove int) rm.Table {
+		var routes []rm.RouteDecl
+		for mask := 0; mask < 16; mask++ {
+			sub, n := "", 0
+			for i, l := range lits {
+				if mask&(1<<i) != 0 {
+					sub += "/" + l
+					n++
+				} else {
+					sub += fmt.Sprintf("/{p%d}", i)
+				}
+			}
+			m := "GET"
+			if n >= postAbove {
+				m = "POST"
+			}
+			routes = append(routes, rm.RouteDecl{ID: mask, Method: m, Sub: sub})
+		}
+		return rm.Table{Svcs: []rm.SvcDecl{{Root: "/r", Routes: routes}}}
+	}
+	tabs := []rm.Table{mk(5), mk(3), mk(2)}
+	return tableGen{len(tabs), func(i int) rm.Table { return tabs[i] }}
+}
+
+// ordersC03: the registration orders explored for a table. Small tables: all of them. The wide
+// tables of W2 (16 routes): the 128 affine orders i -> (i*stride+offset) mod 16 (every odd stride x
+// every offset) and their reversals.
+func ordersC03(sweepName string, t rm.Table) []rs.BuildOpt {
+	if sweepName != "W2" {
+		return buildOrders(t)
+	}
+	n := len(t.Svcs[0].Routes)
+	var out []rs.BuildOpt
+	for stride := 1; stride < n; stride += 2 {
+		for off := 0; off < n; off++ {
+			fw, bw := make([]int, n), make([]int, n)
+			for i := range fw {
+				fw[i] = (i*stride + off) % n
+				bw[n-1-i] = fw[i]
+			}
+			out = append(out, rs.BuildOpt{SvcOrder: []int{0}, RouteOrder: [][]int{fw}}, rs.BuildOpt{SvcOrder: []int{0}, RouteOrder: [][]int{bw}})
+		}
+	}
+	return out
+}
+
 // excludedC03 implements the property's exclusions: (method, template) pairs must be distinct,
 // no two roots with the same literal/variable shape, no two same-method routes whose templates
 // differ only in variable names. RouterJSR311: literal root paths only.
@@ -127,6 +178,9 @@ func c03Sweeps(r rm.Router, tier string) []sweep {
 		CTs: []string{"", rs.JSON}, Accepts: []string{"", rs.XML, "text/plain"}, XCs: []string{"", "1"}, Bodies: []bool{false, true}}
 	ha := headerAtoms("/h", []string{"/{x}", "/a"}, []string{"GET", "POST"}, hu.Decls())
 	out = append(out, sweep{"H2", r, pairs(ha), crossReqs([]h.Req{{Segs: []string{"h", "a"}}, {Segs: []string{"h", "b"}}}, []string{"GET", "POST", "PUT"}, hu.Combos(), false)})
+	// wide tables: 16 candidate routes for one request, 256 registration orders
+	ws := wideSweep(r)
+	out = append(out, sweep{"W2", r, wideDistinct(), crossReqs(pathsOf(ws.Reqs), []string{"GET", "POST", "PUT"}, rs.PathSweepHeaders[:1], false)})
 	return out
 }
 
@@ -158,7 +212,7 @@ func replayC03(rc routingCase, o rs.Outcome) error {
 	p := rm.Parse(rc.Table)
 	r := routerOf(rc.Router)
 	keys := map[string]bool{}
-	for _, opt := range buildOrders(rc.Table) {
+	for _, opt := range ordersC03(rc.Sweep, rc.Table) {
 		opt.Router = r
 		k := rs.Build(rc.Table, opt).Do(rc.Req.HTTP(), h.NewRec(), false).Key()
 		fmt.Printf("order svc=%v routes=%v -> %s\n", opt.SvcOrder, opt.RouteOrder, k)
@@ -188,7 +242,7 @@ func checkC03(run *h.Run) {
 					atomic.AddInt64(&excluded, 1)
 					return
 				}
-				opts := buildOrders(t)
+				opts := ordersC03(sp.Name, t)
 				bs := make([]*rs.Built, len(opts))
 				for i := range opts {
 					opts[i].Router = router
@@ -249,6 +303,6 @@ func checkC03(run *h.Run) {
 	run.Cov["tables_excluded_by_the_property"] = excluded
 	run.Cov["permuted_container_builds"] = permBuilds
 	run.Cov["exhaustive"] = true
-	run.Cov["rule"] = "E1 with a permutation dimension: 2-route tables (P2 alphabets + a literal that a prefix variable also matches), 3-route tables (P3) and 2-route header variants (H2); for each table every permutation of the Add order x every permutation of the Route order within each service is built and every request dispatched on all builds. Oracles: identical outcome under every permutation (differential); the invoked route is not less specific than another eligible route and its service is a maximal claiming root (reference model). Excluded as the property says: same-shape roots, same-method routes differing only in variable names; RouterJSR311 on literal roots only. Non-trivial: not a 404."
+	run.Cov["rule"] = "E1 with a permutation dimension: 2-route tables (P2 alphabets + a literal that a prefix variable also matches), 3-route tables (P3), 2-route header variants (H2) and wide tables (W2: one service with the 16 four-segment literal/variable templates, 256 registration orders, up to 16 candidates per request); for each small table every permutation of the Add order x every permutation of the Route order within each service is built and every request dispatched on all builds. Oracles: identical outcome under every permutation (differential); the invoked route is not less specific than another eligible route and its service is a maximal claiming root (reference model). Excluded as the property says: same-shape roots, same-method routes differing only in variable names; RouterJSR311 on literal roots only. Non-trivial: not a 404."
 	run.Assume = []string{"specificity order of DESIGN.md §5 (partial order; incomparable routes/roots accepted)"}
 }
